@@ -301,9 +301,11 @@ BodiesOf(kind, b) ==
 \* linearization points (empty set: the reply is not linearizable).
 LinTicks(r, rq, body, t) ==
   IF rq.kind = "ClaimTask"
-  THEN LET core(b) == [status |-> b.status, task |-> b.task] IN
+  THEN LET \* the attempt counter is advisory: the claim writes back the value it read earlier
+           core(b) == [status |-> b.status,
+                       task |-> IF IsSome(b.task) THEN Some([The(b.task) EXCEPT !.attempt = 0]) ELSE None] IN
        {c.t : c \in {c \in GetOr(cand, r, {}) :
-                 /\ body.status = CREATED /\ c.res = core(body) /\ IsSome(body.task)
+                 /\ body.status = CREATED /\ core(c.res) = core(body) /\ IsSome(body.task)
                  /\ \E s \in GetOr(snaps, r, {}) :
                        LET cr == ClaimRead(s.S, The(body.task))
                        IN cr.root = body.root /\ cr.leaf = body.leaf}}
@@ -311,7 +313,7 @@ LinTicks(r, rq, body, t) ==
        {tt \in UNION {{s.dt, t} : s \in GetOr(snaps, r, {})} :
            /\ body.status # CREATED
            /\ \E s \in GetOr(snaps, r, {}) : tt \in {s.dt, t} /\
-                 LET o == OpClaimTask(s.S, rq.args, tt) IN o.db = s.S /\ o.res = core(body)}
+                 LET o == OpClaimTask(s.S, rq.args, tt) IN o.db = s.S /\ core(o.res) = core(body)}
   ELSE {c.t : c \in {c \in GetOr(cand, r, {}) : c.res = body}}
        \cup
        \* a request answered without touching the store: any instant will do
